@@ -6,10 +6,11 @@ import (
 
 // scanCall is one call that copies the columns of a result row into Go locations.
 type scanCall struct {
-	Call  ssa.CallInstruction
-	Fn    *ssa.Function
-	Site  *SQLSite    // the Query/QueryRow site the row comes from (nil if unknown)
-	Dests []ssa.Value // destination addresses, in column order (nil if dynamic)
+	Call     ssa.CallInstruction
+	Fn       *ssa.Function
+	Site     *SQLSite    // the Query/QueryRow site the row comes from (nil if unknown)
+	Dests    []ssa.Value // destination addresses, in column order (nil if dynamic)
+	RawDests []ssa.Value // the same as passed to Scan (conversions such as (*sql.RawBytes)(&x) not stripped)
 }
 
 func (m *Model) siteOfCallValue(v ssa.Value) *SQLSite {
@@ -93,6 +94,7 @@ func (m *Model) scanCalls() []*scanCall {
 				if vals, dyn := varargValues(argsV); !dyn {
 					for _, v := range vals {
 						sc.Dests = append(sc.Dests, stripConv(v))
+						sc.RawDests = append(sc.RawDests, v)
 					}
 				}
 				out = append(out, sc)
